@@ -60,8 +60,56 @@ func (t *fakeToken) Ping(ctx context.Context) error {
 	case 't':
 		<-ctx.Done() // block until pingOne's timeout
 		return ctx.Err()
+	case 's': // slow but successful
+		scriptMu.Lock()
+		d := pingDelay
+		scriptMu.Unlock()
+		select {
+		case <-time.After(d):
+		case <-ctx.Done():
+			return ctx.Err()
+		}
 	}
 	return nil
+}
+
+var pingDelay time.Duration
+
+// runSlow: one check round made of ntok successful pings of pingms each (sequential: the round takes ntok*pingms), then
+// GET /health waitms after the round COMPLETED.  The staleness rule counts from the completion of the last check.
+func runSlow(f []string) string {
+	if len(f) != 4 {
+		return "bad-op"
+	}
+	ntok, pingms, waitms, iv := int(hx.Atoi(f[0])), int(hx.Atoi(f[1])), int(hx.Atoi(f[2])), int(hx.Atoi(f[3]))
+	cfg, err := mkConfig(3, iv, ntok)
+	if err != nil {
+		return "err config"
+	}
+	s, err := server.VerifNew(cfg)
+	if err != nil {
+		return "err new"
+	}
+	defer s.Close()
+	scriptMu.Lock()
+	for name := range script {
+		delete(script, name)
+	}
+	for i := 0; i < ntok; i++ {
+		script[tokName(i)] = 's'
+	}
+	pingDelay = time.Duration(pingms) * time.Millisecond
+	scriptMu.Unlock()
+	t0 := time.Now()
+	ok := s.VerifHealthCheck()
+	took := time.Since(t0)
+	if !ok || took < time.Duration(ntok*pingms)*time.Millisecond || took > time.Duration(ntok*pingms+400)*time.Millisecond {
+		return fmt.Sprintf("err round ok=%t took=%dms", ok, took.Milliseconds())
+	}
+	time.Sleep(time.Duration(waitms) * time.Millisecond)
+	rec := httptest.NewRecorder()
+	s.Handler().ServeHTTP(rec, httptest.NewRequest("GET", "/health", nil))
+	return fmt.Sprintf("ok %d", rec.Code)
 }
 func (t *fakeToken) Close() error                { return nil }
 func (t *fakeToken) Config() *config.TokenConfig { return t.cfg }
@@ -247,6 +295,8 @@ func Handle(f []string) string {
 		return runHist(f[1:])
 	case "loop":
 		return runLoop(f[1:])
+	case "slow":
+		return runSlow(f[1:])
 	}
 	return "bad-op"
 }
@@ -381,6 +431,9 @@ func Gen(w *bufio.Writer, seed uint64, tier string) {
 		emit(w, n, iv, ntok, steps)
 	}
 	// (d) the real loop: close before / after the first check (and after the second one, thorough)
+	// (e) a slow but successful round (three pings of 0.9 s, interval 1 s), queried 0.5 s / 3.3 s after it completed
+	fmt.Fprintln(w, "C20 slow 3 900 500 1")
+	fmt.Fprintln(w, "C20 slow 1 200 3300 1")
 	fmt.Fprintln(w, "C20 loop 0 60")
 	fmt.Fprintln(w, "C20 loop 1 60")
 	fmt.Fprintln(w, "C20 loop 1 1")
